@@ -19,7 +19,16 @@
 //   settype <o> <str> ; setdef <o> <str>|- ; setmeta|setlink|setpos|setext|setdata <o> <ref> ;
 //   setmetas|setlinks|setposs|setexts|setdatas <o> <str> ; setunits <o> -|<n> {<s:hex>} ; setextent <o> <rank> <dims>
 //   setvals <o> <n> {<dtype>} ; settpos <o> <n> {<d:hex>} ; settext <o> -|<n> {<d:hex>}
+//   dim <a> set|range|sampled|alias ; dim <a> frame <ref> ; deldims <a>          (dimension descriptors: kind + frame link only)
+//   writes of fields the model does not carry (answer OK - ; they show only in the raw dump of C02):
+//     setlabel|setunit <a> <str>|- ; setorigin <a> <d:hex>|- ; setpoly <a> <n> {<d:hex>} ; wdata <a> <seed> ; frows <d> <n> (modelled)
+//     wrow <d> <row> <seed> ; punit <p> <str>|- ; puncert <p> <d:hex>|- ; setrepo <s> <str>|- ; dimset <a> <i> <seed> ;
+//     forcecreated <o>|F <seconds>
+//   flush ; reopen [rw|ro|other]     (C02; `reopen` = `reopen rw`; ro: the session stays read-only until the next reopen;
+//                                     other: a child process opens the file, dumps it, exits; then this process reopens rw)
 // Answer:  OK <value> t=<0|1> h=<digest>   or   ERR <class> t=<0|1> h=<digest>
+//   in mode C04 a successful delete answers  OK 1 dead=[..] dang=[..] zv=[..] frame=<0|1>  (see delete_report)
+//   reopen answers  OK - same=<0|1> diff=<what> n=<entities>   (raw dump before the close against the raw dump after)
 //   t = 1 iff the canonical dump of the whole file differs before / after the call (computed here, from the
 //   implementation's own two dumps); h = 32-bit FNV-1a of the dump after the call.
 // The driver refuses, before calling the library: a receiver that is not a live entity of a fitting kind
@@ -35,11 +44,17 @@
 #include <map>
 #include <set>
 #include <algorithm>
+#include <sstream>
+#include <memory>
+#include <unistd.h>
+#include <cstdio>
 
 namespace nixv {
 namespace hist {
 
 static std::string workdir;
+static std::string mode_ = "C03";       // which property's driver this is (C04: delete report)
+static bool read_only = false;
 static nix::File file;
 static int file_serial = 0;
 static std::string path;
@@ -277,6 +292,27 @@ struct Walk {
         }
         for (auto &c : ks) section(c, me);
     }
+    // the descriptors of an array: kind, and for a data-frame dimension the frame it links to
+    std::string dims_of(const nix::DataArray &a) {
+        std::string o = "[";
+        size_t n = (size_t)a.dimensionCount();
+        for (size_t i = 1; i <= n; i++) {
+            if (i > 1) o += " ";
+            nix::Dimension d = a.getDimension(i);
+            switch (d.dimensionType()) {
+            case nix::DimensionType::Set: o += "set"; break;
+            case nix::DimensionType::Sample: o += "sampled"; break;
+            case nix::DimensionType::Range: { nix::RangeDimension r; r = d; o += r.alias() ? "alias" : "range"; break; }
+            case nix::DimensionType::DataFrame: {
+                nix::DataFrameDimension f; f = d;
+                std::string tgt = "-";
+                try { nix::DataFrame df(f.data()); tgt = ordof(df); } catch (...) { tgt = "-"; }
+                o += "frame:" + tgt; break; }
+            default: o += "?";
+            }
+        }
+        return o + "]";
+    }
     template<typename TG> void features_of(const TG &t, const std::string &me, std::string &l, std::vector<nix::Feature> &fs) {
         l += " X=" + SAFE(kids<nix::Feature>((size_t)t.featureCount(), [&](size_t i) { return t.getFeature(i); }, fs));
     }
@@ -299,7 +335,8 @@ struct Walk {
             std::string aid; long ak;
             std::string al = head('A', a, me, aid, ak);
             if (rebind && ak < 1000000000L) { hs[ak].a = a; }
-            al += named(a) + " dt=" + SAFE(enc_dtype(a.dataType())) + " ext=" + SAFE(ndsz(a.dataExtent())) + meta_src(a);
+            al += named(a) + " dt=" + SAFE(enc_dtype(a.dataType())) + " ext=" + SAFE(ndsz(a.dataExtent()));
+            al += " dims=" + SAFE(dims_of(a)) + meta_src(a);
             lines.push_back({ak, al});
         }
         for (auto &d : ds) {
@@ -387,6 +424,205 @@ static unsigned fnv(const std::string &s) {
     unsigned h = 2166136261u;
     for (unsigned char c : s) { h ^= c; h *= 16777619u; }
     return h;
+}
+
+
+static size_t nelms(const nix::NDSize &e) { size_t n = 1; for (size_t i = 0; i < e.size(); i++) n *= (size_t)e[i]; return e.size() ? n : 0; }
+
+// ---- the raw dump (C02): everything the property lists, with the real ids and times, in container order ----
+// Used only to compare the file with ITSELF: before a close and after the reopen (same process, or another one).
+struct Raw {
+    std::vector<std::string> lines;
+    static std::string tm(time_t t) { return std::to_string((long long)t); }
+    static std::string od(const boost::optional<double> &o) { return o ? enc_dbl(*o) : "-"; }
+    static std::string variant(const nix::Variant &v) {
+        switch (v.type()) {
+        case nix::DataType::Bool: return std::string("b:") + (v.get<bool>() ? "1" : "0");
+        case nix::DataType::Int32: return "i32:" + std::to_string(v.get<int32_t>());
+        case nix::DataType::UInt32: return "u32:" + std::to_string(v.get<uint32_t>());
+        case nix::DataType::Int64: return "i64:" + std::to_string(v.get<int64_t>());
+        case nix::DataType::UInt64: return "u64:" + std::to_string(v.get<uint64_t>());
+        case nix::DataType::Double: return enc_dbl(v.get<double>());
+        case nix::DataType::String: return enc_str(v.get<std::string>());
+        default: return "nothing";
+        }
+    }
+    template<typename E> static std::string idof(const E &e) { if (!e) return "-"; try { return e.id(); } catch (...) { return "!"; } }
+    template<typename E> static std::string idsof(const std::vector<E> &v) { std::string o = "["; for (auto &e : v) o += idof(e) + ","; return o + "]"; }
+    template<typename E> std::string head(const char *K, const E &e, const std::string &parent) {
+        return std::string(K) + " id=" + SAFE(e.id()) + " in=" + parent + " created=" + SAFE(tm(e.createdAt()));
+    }
+    template<typename E> std::string named(const E &e) {
+        return " name=" + SAFE(enc_str(e.name())) + " type=" + SAFE(enc_str(e.type())) + " def=" + SAFE(ostr(e.definition()));
+    }
+    template<typename E> std::string meta_src(const E &e) {
+        return " meta=" + SAFE(idof(e.metadata())) + " src=" + SAFE(idsof(e.sources()));
+    }
+    static std::string data_hash(const nix::DataArray &a) {
+        nix::NDSize ext = a.dataExtent();
+        size_t n = nelms(ext);
+        if (n == 0) return "empty";
+        nix::NDSize off(ext.size(), 0);
+        nix::DataType dt = a.dataType();
+        std::string bytes;
+        if (dt == nix::DataType::String) {
+            std::vector<std::string> v(n);
+            a.getDataDirect(dt, v.data(), ext, off);
+            for (auto &x : v) { bytes += x; bytes.push_back('\0'); }
+        } else {
+            size_t sz = nix::data_type_to_size(dt);
+            bytes.resize(n * sz);
+            a.getDataDirect(dt, &bytes[0], ext, off);
+        }
+        char buf[32]; std::snprintf(buf, sizeof buf, "%08x/%zu", fnv(bytes), bytes.size());
+        return buf;
+    }
+    std::string dims(const nix::DataArray &a) {
+        std::string o = "[";
+        size_t n = (size_t)a.dimensionCount();
+        for (size_t i = 1; i <= n; i++) {
+            nix::Dimension d = a.getDimension(i);
+            o += SAFE(([&]() -> std::string {
+                switch (d.dimensionType()) {
+                case nix::DimensionType::Set: { nix::SetDimension x; x = d; return "set(" + strs(x.labels()) + ")"; }
+                case nix::DimensionType::Sample: { nix::SampledDimension x; x = d;
+                    return "sampled(" + enc_dbl(x.samplingInterval()) + "," + od(x.offset()) + "," + ostr(x.label()) + "," + ostr(x.unit()) + ")"; }
+                case nix::DimensionType::Range: { nix::RangeDimension x; x = d;
+                    if (x.alias()) return std::string("alias");
+                    return "range(" + dbls(x.ticks()) + "," + ostr(x.label()) + "," + ostr(x.unit()) + ")"; }
+                case nix::DimensionType::DataFrame: { nix::DataFrameDimension x; x = d;
+                    std::string f = "-"; try { f = nix::DataFrame(x.data()).id(); } catch (...) {}
+                    auto ci = x.columnIndex();
+                    return "frame(" + f + "," + (ci ? std::to_string(*ci) : std::string("-")) + ")"; }
+                }
+                return std::string("?"); })()) + ";";
+        }
+        return o + "]";
+    }
+    void feature(const nix::Feature &f, const std::string &parent) {
+        lines.push_back(head("X", f, parent) + " lt=" + SAFE(enc_lt(f.linkType())) + " data=" + SAFE(idof(f.data())));
+    }
+    void source(const nix::Source &r, const std::string &parent) {
+        std::string me = SAFE(r.id());
+        lines.push_back(head("R", r, parent) + named(r) + " meta=" + SAFE(idof(r.metadata())) + " n=" + SAFE(std::to_string(r.sourceCount())));
+        size_t n = 0; try { n = (size_t)r.sourceCount(); } catch (...) {}
+        for (size_t i = 0; i < n; i++) { try { source(r.getSource(i), me); } catch (...) { lines.push_back("R ! in=" + me); } }
+    }
+    void section(const nix::Section &s, const std::string &parent) {
+        std::string me = SAFE(s.id());
+        lines.push_back(head("S", s, parent) + named(s) + " repo=" + SAFE(ostr(s.repository())) + " link=" + SAFE(idof(s.link())));
+        size_t np = 0; try { np = (size_t)s.propertyCount(); } catch (...) {}
+        for (size_t i = 0; i < np; i++) {
+            try {
+                nix::Property p = s.getProperty(i);
+                std::string l = head("P", p, me) + " name=" + SAFE(enc_str(p.name())) + " def=" + SAFE(ostr(p.definition()));
+                l += " unit=" + SAFE(ostr(p.unit())) + " unc=" + SAFE(od(p.uncertainty())) + " dt=" + SAFE(enc_dtype(p.dataType()));
+                l += " vals=" + SAFE(([&]() { std::string o = "["; for (auto &v : p.values()) o += variant(v) + ","; return o + "]"; })());
+                lines.push_back(l);
+            } catch (...) { lines.push_back("P ! in=" + me); }
+        }
+        size_t n = 0; try { n = (size_t)s.sectionCount(); } catch (...) {}
+        for (size_t i = 0; i < n; i++) { try { section(s.getSection(i), me); } catch (...) { lines.push_back("S ! in=" + me); } }
+    }
+    template<typename TG> void tagcommon(const TG &t, const std::string &me, std::string &l) {
+        l += " units=" + SAFE(strs(t.units())) + " refs=" + SAFE(idsof(t.references())) + meta_src(t);
+        lines.push_back(l);
+        size_t n = 0; try { n = (size_t)t.featureCount(); } catch (...) {}
+        for (size_t i = 0; i < n; i++) { try { feature(t.getFeature(i), me); } catch (...) { lines.push_back("X ! in=" + me); } }
+    }
+    void block(const nix::Block &b) {
+        std::string me = SAFE(b.id());
+        lines.push_back(head("B", b, "file") + named(b) + " meta=" + SAFE(idof(b.metadata())));
+        for (auto &a : b.dataArrays()) {
+            std::string l = head("A", a, me) + named(a) + " label=" + SAFE(ostr(a.label())) + " unit=" + SAFE(ostr(a.unit()));
+            l += " origin=" + SAFE(od(a.expansionOrigin())) + " poly=" + SAFE(dbls(a.polynomCoefficients()));
+            l += " dt=" + SAFE(enc_dtype(a.dataType())) + " ext=" + SAFE(ndsz(a.dataExtent())) + " data=" + SAFE(data_hash(a));
+            l += " dims=" + SAFE(dims(a)) + meta_src(a);
+            lines.push_back(l);
+        }
+        for (auto &dd : b.dataFrames()) {
+            nix::DataFrame d = dd;
+            std::string l = head("D", d, me) + named(d);
+            l += " cols=" + SAFE(([&]() { std::string o = "["; for (auto &c : d.columns()) o += enc_str(c.name) + ":" + enc_dtype(c.dtype) + ":" + enc_str(c.unit) + ","; return o + "]"; })());
+            l += " rows=" + SAFE(std::to_string(d.rows()));
+            l += " cells=" + SAFE(([&]() { std::string o; nix::ndsize_t n = d.rows();
+                for (nix::ndsize_t i = 0; i < n; i++) { o += "("; for (auto &v : d.readRow(i)) o += variant(v) + ","; o += ")"; }
+                char buf[32]; std::snprintf(buf, sizeof buf, "%08x/%zu", fnv(o), o.size()); return std::string(buf); })());
+            l += meta_src(d);
+            lines.push_back(l);
+        }
+        for (auto &t : b.tags()) {
+            std::string l = head("T", t, me) + named(t) + " pos=" + SAFE(dbls(t.position())) + " ext=" + SAFE(dbls(t.extent()));
+            tagcommon(t, SAFE(t.id()), l);
+        }
+        for (auto &m : b.multiTags()) {
+            std::string l = head("M", m, me) + named(m);
+            l += " pos=" + ([&]() -> std::string { try { return idof(m.positions()); } catch (...) { return "-"; } })();
+            l += " ext=" + ([&]() -> std::string { try { return idof(m.extents()); } catch (...) { return "-"; } })();
+            tagcommon(m, SAFE(m.id()), l);
+        }
+        for (auto &g : b.groups()) {
+            lines.push_back(head("G", g, me) + named(g) + " ga=" + SAFE(idsof(g.dataArrays())) + " gd=" + SAFE(idsof(g.dataFrames())) +
+                            " gt=" + SAFE(idsof(g.tags())) + " gm=" + SAFE(idsof(g.multiTags())) + meta_src(g));
+        }
+        size_t n = 0; try { n = (size_t)b.sourceCount(); } catch (...) {}
+        for (size_t i = 0; i < n; i++) { try { source(b.getSource(i), me); } catch (...) { lines.push_back("R ! in=" + me); } }
+    }
+    void run(nix::File &f) {
+        lines.push_back("F format=" + SAFE(f.format()) + " version=" + SAFE(([&]() { std::string o; for (int x : f.version()) o += std::to_string(x) + "."; return o; })()) +
+                        " created=" + SAFE(tm(f.createdAt())));
+        size_t nb = 0; try { nb = (size_t)f.blockCount(); } catch (...) {}
+        for (size_t i = 0; i < nb; i++) { try { block(f.getBlock(i)); } catch (...) { lines.push_back("B !"); } }
+        size_t ns = 0; try { ns = (size_t)f.sectionCount(); } catch (...) {}
+        for (size_t i = 0; i < ns; i++) { try { section(f.getSection(i), "file"); } catch (...) { lines.push_back("S !"); } }
+    }
+};
+
+static std::vector<std::string> rawdump(nix::File &f) { Raw r; r.run(f); return r.lines; }
+
+// the first difference of two raw dumps as "<kind>.<field>" (or "-"): a label only, never an id or a time
+static std::string raw_diff(const std::vector<std::string> &a, const std::vector<std::string> &b) {
+    if (a.size() != b.size()) return "entities";
+    for (size_t i = 0; i < a.size(); i++) {
+        if (a[i] == b[i]) continue;
+        std::vector<std::string> x = split(a[i]), y = split(b[i]);
+        if (x.size() != y.size()) return x[0] + ".fields";
+        for (size_t j = 0; j < x.size(); j++) if (x[j] != y[j]) return x[0] + "." + x[j].substr(0, x[j].find('='));
+        return x[0] + ".?";
+    }
+    return "-";
+}
+
+// child process of `reopen other`: open, dump, exit
+static int rawdump_main(const char *file_path, const char *m) {
+    H5Eset_auto2(H5E_DEFAULT, nullptr, nullptr);
+    try {
+        nix::File f = nix::File::open(file_path, std::string(m) == "ro" ? nix::FileMode::ReadOnly : nix::FileMode::ReadWrite);
+        for (auto &l : rawdump(f)) std::cout << l << "\n";
+        f.close();
+    } catch (const std::exception &e) { std::cout << "EXCEPTION " << e.what() << "\n"; return 3; }
+    std::cout << "END\n" << std::flush;
+    return 0;
+}
+
+static bool other_process_dump(const std::string &m, std::vector<std::string> &out) {
+    char exe[4096];
+    ssize_t n = readlink("/proc/self/exe", exe, sizeof exe - 1);
+    if (n <= 0) return false;
+    exe[n] = 0;
+    std::string cmd = std::string("'") + exe + "' --rawdump '" + path + "' " + m + " 2>/dev/null";
+    FILE *p = popen(cmd.c_str(), "r");
+    if (!p) return false;
+    char buf[65536];
+    std::string all;
+    size_t k;
+    while ((k = fread(buf, 1, sizeof buf, p)) > 0) all.append(buf, k);
+    int rc = pclose(p);
+    std::stringstream ss(all);
+    std::string l;
+    bool ended = false;
+    while (std::getline(ss, l)) { if (l == "END") { ended = true; break; } out.push_back(l); }
+    return ended && rc == 0;
 }
 
 // ---- containers ----
@@ -695,6 +931,62 @@ static std::string do_mk(const std::vector<std::string> &t) {
     return std::to_string(k);
 }
 
+// ---- writes of data the model does not carry ----
+static unsigned lcg(unsigned &s) { s = s * 1664525u + 1013904223u; return s >> 8; }
+
+static void write_array(nix::DataArray &a, unsigned seed) {
+    nix::NDSize ext = a.dataExtent();
+    size_t n = nelms(ext);
+    if (n == 0) return;
+    nix::NDSize off(ext.size(), 0);
+    nix::DataType dt = a.dataType();
+    if (dt == nix::DataType::String) {
+        std::vector<std::string> v(n);
+        for (auto &x : v) x = "s" + std::to_string(lcg(seed) % 1000);
+        a.setDataDirect(nix::DataType::String, v.data(), ext, off);
+    } else if (dt == nix::DataType::Bool) {
+        std::unique_ptr<bool[]> v(new bool[n]);
+        for (size_t i = 0; i < n; i++) v[i] = (lcg(seed) & 1) != 0;
+        a.setDataDirect(nix::DataType::Bool, v.get(), ext, off);
+    } else {
+        std::vector<int32_t> v(n);
+        for (auto &x : v) x = (int32_t)(lcg(seed) % 100);
+        a.setDataDirect(nix::DataType::Int32, v.data(), ext, off);
+    }
+}
+
+static void write_row(nix::DataFrame &d, nix::ndsize_t row, unsigned seed) {
+    std::vector<nix::Variant> vs;
+    for (auto &col : d.columns()) {
+        unsigned r = lcg(seed) % 100;
+        switch (col.dtype) {
+        case nix::DataType::Bool: vs.push_back(nix::Variant((r & 1) != 0)); break;
+        case nix::DataType::Int32: vs.push_back(nix::Variant(int32_t(r))); break;
+        case nix::DataType::UInt32: vs.push_back(nix::Variant(uint32_t(r))); break;
+        case nix::DataType::Int64: vs.push_back(nix::Variant(int64_t(r))); break;
+        case nix::DataType::UInt64: vs.push_back(nix::Variant(uint64_t(r))); break;
+        case nix::DataType::Double: vs.push_back(nix::Variant(double(r) / 4.0)); break;
+        case nix::DataType::String: vs.push_back(nix::Variant("v" + std::to_string(r))); break;
+        default: throw std::logic_error("column type");
+        }
+    }
+    d.writeRow(row, vs);
+}
+
+// well-formed values for the fields of descriptor i (1-based); nothing happens when there is no such descriptor
+static void set_dim_fields(nix::DataArray &a, size_t i, unsigned seed) {
+    if (i < 1 || i > (size_t)a.dimensionCount()) return;
+    nix::Dimension d = a.getDimension(i);
+    unsigned r = lcg(seed);
+    switch (d.dimensionType()) {
+    case nix::DimensionType::Set: { nix::SetDimension x; x = d; x.labels({"a" + std::to_string(r % 10), "b", "c"}); if (r & 16) x.label("set-label"); break; }
+    case nix::DimensionType::Sample: { nix::SampledDimension x; x = d; x.samplingInterval(0.25 * (1 + r % 7)); x.offset(double(r % 5) - 2.0);
+        x.label("time"); x.unit((r & 16) ? "ms" : "s"); break; }
+    case nix::DimensionType::Range: { nix::RangeDimension x; x = d; if (!x.alias()) { x.ticks({0.5, 1.0 + (r % 3), 10.0}); x.label("ticks"); x.unit("mV"); } break; }
+    default: break;
+    }
+}
+
 // ---- setters ----
 #define WITH_META(H_, CALL) \
     switch (H_.kind) { \
@@ -800,7 +1092,155 @@ static std::string do_line(const std::vector<std::string> &t, bool &maybe_delete
         h.t.extent(v);
         return "-";
     }
+    if (c == "dim") {
+        H &h = recv((int)dec_int(t.at(1)), "A");
+        const std::string &k = t.at(2);
+        if (k == "set") h.a.appendSetDimension({"l1", "l2"});
+        else if (k == "range") h.a.appendRangeDimension({1.0, 2.5, 4.0});
+        else if (k == "sampled") h.a.appendSampledDimension(0.5);
+        else if (k == "alias") h.a.appendAliasRangeDimension();
+        else if (k == "frame") h.a.appendDataFrameDimension(argD(dec_ref(t.at(3))));
+        else throw std::logic_error("bad dimension kind " + k);
+        return "-";
+    }
+    if (c == "deldims") { H &h = recv((int)dec_int(t.at(1)), "A"); return b01(h.a.deleteDimensions()); }
+    if (c == "frows") { H &h = recv((int)dec_int(t.at(1)), "D"); h.d.rows(dec_u64(t.at(2))); return "-"; }
+    // ---- writes outside the model ----
+    if (c == "setlabel") { H &h = recv((int)dec_int(t.at(1)), "A"); if (t.at(2) == "-") h.a.label(nix::none); else h.a.label(dec_sarg(t.at(2))); return "-"; }
+    if (c == "setunit") { H &h = recv((int)dec_int(t.at(1)), "A"); if (t.at(2) == "-") h.a.unit(nix::none); else h.a.unit(dec_sarg(t.at(2))); return "-"; }
+    if (c == "setorigin") { H &h = recv((int)dec_int(t.at(1)), "A"); if (t.at(2) == "-") h.a.expansionOrigin(nix::none); else h.a.expansionOrigin(dec_dbl(t.at(2))); return "-"; }
+    if (c == "setpoly") {
+        H &h = recv((int)dec_int(t.at(1)), "A");
+        size_t n = (size_t)dec_u64(t.at(2));
+        std::vector<double> v;
+        for (size_t i = 0; i < n; i++) v.push_back(dec_dbl(t.at(3 + i)));
+        h.a.polynomCoefficients(v);
+        return "-";
+    }
+    if (c == "wdata") { H &h = recv((int)dec_int(t.at(1)), "A"); write_array(h.a, (unsigned)dec_u64(t.at(2))); return "-"; }
+    if (c == "wrow") { H &h = recv((int)dec_int(t.at(1)), "D"); write_row(h.d, dec_u64(t.at(2)), (unsigned)dec_u64(t.at(3))); return "-"; }
+    if (c == "punit") { H &h = recv((int)dec_int(t.at(1)), "P"); if (t.at(2) == "-") h.p.unit(nix::none); else h.p.unit(dec_sarg(t.at(2))); return "-"; }
+    if (c == "puncert") { H &h = recv((int)dec_int(t.at(1)), "P"); if (t.at(2) == "-") h.p.uncertainty(nix::none); else h.p.uncertainty(dec_dbl(t.at(2))); return "-"; }
+    if (c == "setrepo") { H &h = recv((int)dec_int(t.at(1)), "S"); if (t.at(2) == "-") h.s.repository(nix::none); else h.s.repository(dec_sarg(t.at(2))); return "-"; }
+    if (c == "dimset") { H &h = recv((int)dec_int(t.at(1)), "A"); set_dim_fields(h.a, (size_t)dec_u64(t.at(2)), (unsigned)dec_u64(t.at(3))); return "-"; }
+    if (c == "forcecreated") {
+        time_t tm = (time_t)dec_u64(t.at(2));
+        if (t.at(1) == "F") { file.forceCreatedAt(tm); return "-"; }
+        H &h = recv((int)dec_int(t.at(1)), "BSRADTMGPX");
+        switch (h.kind) {
+        case 'B': h.b.forceCreatedAt(tm); break; case 'S': h.s.forceCreatedAt(tm); break; case 'R': h.r.forceCreatedAt(tm); break;
+        case 'A': h.a.forceCreatedAt(tm); break; case 'D': h.d.forceCreatedAt(tm); break; case 'T': h.t.forceCreatedAt(tm); break;
+        case 'M': h.m.forceCreatedAt(tm); break; case 'G': h.g.forceCreatedAt(tm); break; case 'P': h.p.forceCreatedAt(tm); break;
+        case 'X': h.x.forceCreatedAt(tm); break; }
+        return "-";
+    }
+    if (c == "flush") return b01(file.flush());
     throw std::logic_error("bad command " + c);
+}
+
+// ---- the delete report (C04): judged on the implementation's own dumps ----
+static std::vector<std::string> split_fields(const std::string &line) {      // by blanks outside brackets
+    std::vector<std::string> out; std::string cur; int depth = 0;
+    for (char ch : line) {
+        if (ch == '[') depth++;
+        if (ch == ']') depth--;
+        if (ch == ' ' && depth == 0) { if (!cur.empty()) out.push_back(cur); cur.clear(); }
+        else cur.push_back(ch);
+    }
+    if (!cur.empty()) out.push_back(cur);
+    return out;
+}
+static std::vector<std::string> split_bar(const std::string &dump) {
+    std::vector<std::string> out; size_t i = 0;
+    for (;;) { size_t j = dump.find(" | ", i); if (j == std::string::npos) { out.push_back(dump.substr(i)); break; } out.push_back(dump.substr(i, j - i)); i = j + 3; }
+    return out;
+}
+static bool is_num(const std::string &s) { return !s.empty() && std::all_of(s.begin(), s.end(), [](char c) { return c >= '0' && c <= '9'; }); }
+// 1 = list of ordinals, 2 = one ordinal, 3 = dimension descriptors, 0 = no reference
+static int ref_class(char K, const std::string &label) {
+    static const std::set<std::string> lists = {"B", "S", "P", "A", "D", "T", "M", "G", "R", "X", "refs", "src", "ga", "gd", "gt", "gm"};
+    if (lists.count(label)) return 1;
+    if (label == "meta" || label == "link" || label == "data") return 2;
+    if (K == 'M' && (label == "pos" || label == "ext")) return 2;
+    if (label == "dims") return 3;
+    return 0;
+}
+static std::vector<std::string> list_items(const std::string &v) {      // "[a b c]" -> a b c
+    std::vector<std::string> out;
+    if (v.size() < 2 || v.front() != '[') return out;
+    return split(v.substr(1, v.size() - 2));
+}
+// every "<holder>.<label>:<target>" with a target in `dead`
+static std::vector<std::string> dangling_in(const std::string &dump, const std::set<int> &dead) {
+    std::vector<std::string> out;
+    for (auto &ln : split_bar(dump)) {
+        std::vector<std::string> fs = split_fields(ln);
+        if (fs.empty()) continue;
+        char K = fs[0][0];
+        for (size_t i = 1; i < fs.size(); i++) {
+            size_t eq = fs[i].find('=');
+            if (eq == std::string::npos) continue;
+            std::string label = fs[i].substr(0, eq), v = fs[i].substr(eq + 1);
+            int rc = ref_class(K, label);
+            std::vector<std::string> items;
+            if (rc == 1) items = list_items(v);
+            else if (rc == 2) items.push_back(v);
+            else if (rc == 3) { for (auto &x : list_items(v)) if (x.compare(0, 6, "frame:") == 0) items.push_back(x.substr(6)); }
+            for (auto &x : items) if (is_num(x) && dead.count(std::stoi(x))) out.push_back(fs[0] + "." + label + ":" + x);
+        }
+    }
+    return out;
+}
+// the dump without the lines of `dead` and with their ordinals erased from every reference
+static std::string scrub_dump(const std::string &dump, const std::set<int> &dead) {
+    std::string out;
+    bool first = true;
+    for (auto &ln : split_bar(dump)) {
+        std::vector<std::string> fs = split_fields(ln);
+        if (fs.empty()) continue;
+        char K = fs[0][0];
+        if (K != 'F' || fs[0].size() > 1) { std::string o = fs[0].substr(1); if (is_num(o) && dead.count(std::stoi(o))) continue; }
+        std::string l = fs[0];
+        for (size_t i = 1; i < fs.size(); i++) {
+            size_t eq = fs[i].find('=');
+            std::string label = eq == std::string::npos ? fs[i] : fs[i].substr(0, eq), v = eq == std::string::npos ? "" : fs[i].substr(eq + 1);
+            int rc = eq == std::string::npos ? 0 : ref_class(K, label);
+            auto gone = [&](const std::string &x) { return is_num(x) && dead.count(std::stoi(x)) > 0; };
+            if (rc == 1) { std::vector<std::string> keep; for (auto &x : list_items(v)) if (!gone(x)) keep.push_back(x); v = lst(keep); }
+            else if (rc == 2) { if (gone(v)) v = "-"; }
+            else if (rc == 3) { std::vector<std::string> ds; for (auto &x : list_items(v)) ds.push_back(x.compare(0, 6, "frame:") == 0 && gone(x.substr(6)) ? "frame:-" : x); v = lst(ds); }
+            l += " " + (eq == std::string::npos ? fs[i] : label + "=" + v);
+        }
+        out += (first ? "" : " | ") + l;
+        first = false;
+    }
+    return out;
+}
+static std::string valid_of(H &h) {
+    try {
+        switch (h.kind) {
+        case 'B': return b01(h.b.isValidEntity()); case 'S': return b01(h.s.isValidEntity()); case 'P': return b01(h.p.isValidEntity());
+        case 'A': return b01(h.a.isValidEntity()); case 'D': return b01(h.d.isValidEntity()); case 'T': return b01(h.t.isValidEntity());
+        case 'M': return b01(h.m.isValidEntity()); case 'G': return b01(h.g.isValidEntity()); case 'R': return b01(h.r.isValidEntity());
+        case 'X': return b01(h.x.isValidEntity());
+        }
+    } catch (...) { return "!"; }
+    return "?";
+}
+// dead = the ordinals this call removed; dang = links (of any kind) the dump still shows to a removed ordinal;
+// zv = removed ordinals whose handle still says isValidEntity(); frame = the dump afterwards is the dump before without them
+static std::string delete_report(const std::string &before, const std::string &after, const std::vector<bool> &was_alive) {
+    std::set<int> now_dead, all_dead;
+    std::vector<std::string> dead_l, zv;
+    for (size_t k = 0; k < hs.size(); k++) {
+        if (!hs[k].bound || hs[k].alive) continue;
+        all_dead.insert((int)k);
+        if (k < was_alive.size() && was_alive[k]) { now_dead.insert((int)k); dead_l.push_back(std::to_string(k)); }
+        std::string v = valid_of(hs[k]);
+        if (v != "0") zv.push_back(std::to_string(k) + (v == "1" ? "" : v));
+    }
+    return " dead=" + lst(dead_l) + " dang=" + lst(dangling_in(after, all_dead)) + " zv=" + lst(zv) +
+           " frame=" + b01(scrub_dump(before, now_dead) == after);
 }
 
 static void reset() {
@@ -809,6 +1249,7 @@ static void reset() {
     file_serial++;
     path = workdir + "/hist" + std::to_string(file_serial % 2) + ".nix";
     file = nix::File::open(path, nix::FileMode::Overwrite);
+    read_only = false;
     last_dump = dump();
 }
 
@@ -825,14 +1266,26 @@ static std::string answer(const std::vector<std::string> &t) {
     if (c == "uuid") return std::string("OK ") + b01(nix::util::looksLikeUUID(dec_str(t.at(1))));
     if (c == "observe") return "OK " + dump();
     if (c == "reopen") {
+        std::string kind = t.size() > 1 ? t[1] : "rw";
+        std::vector<std::string> raw_before = rawdump(file);
         for (auto &h : hs) { h.b = nix::Block(); h.s = nix::Section(); h.p = nix::Property(); h.a = nix::DataArray(); h.d = nix::DataFrame();
                              h.t = nix::Tag(); h.m = nix::MultiTag(); h.g = nix::Group(); h.r = nix::Source(); h.x = nix::Feature(); }
         file.close();
-        file = nix::File::open(path, nix::FileMode::ReadWrite);
+        bool same = true;
+        std::string diff = "-";
+        if (kind == "other" || kind == "otherw") {
+            std::vector<std::string> child;
+            if (!other_process_dump(kind == "other" ? "ro" : "rw", child)) { same = false; diff = "child-failed"; }
+            else if (child != raw_before) { same = false; diff = "other:" + raw_diff(raw_before, child); }
+        }
+        read_only = kind == "ro";
+        file = nix::File::open(path, read_only ? nix::FileMode::ReadOnly : nix::FileMode::ReadWrite);
+        std::vector<std::string> raw_after = rawdump(file);
+        if (raw_after != raw_before && same) { same = false; diff = raw_diff(raw_before, raw_after); }
         std::string before = last_dump;
         refresh_liveness(true);
         for (auto &h : hs) if (h.bound && !h.alive) h.bound = false;      // dead handles become none handles
-        return "OK -" + tail_of(before, last_dump);
+        return "OK - same=" + b01(same) + " diff=" + diff + " n=" + std::to_string(raw_after.size() - 1) + tail_of(before, last_dump);
     }
     std::string head;
     bool maybe_deleted = false;
@@ -842,6 +1295,8 @@ static std::string answer(const std::vector<std::string> &t) {
         if (c == "ladd" || c == "setmeta" || c == "setlink" || c == "setpos" || c == "setext" || c == "setdata") mark_linked_ref(dec_ref(t.at(c == "ladd" ? 3 : 2)));
         else if (c == "ladds" || c == "setmetas" || c == "setlinks" || c == "setposs" || c == "setexts" || c == "setdatas") mark_linked_str(dec_sarg(t.at(c == "ladds" ? 3 : 2)));
         else if (c == "lset") { size_t n = (size_t)dec_u64(t.at(3)); for (size_t i = 0; i < n; i++) mark_linked_ref(dec_ref(t.at(4 + i))); }
+        else if (c == "dim" && t.at(2) == "frame") mark_linked_ref(dec_ref(t.at(3)));
+        else if (c == "dim" && t.at(2) == "alias") mark_linked_ref((int)dec_int(t.at(1)));
         else if (c == "mk" && t.at(2) == "M") mark_linked_ref(dec_ref(t.at(5)));
         else if (c == "mk" && t.at(2) == "X") { if (t.at(5) == "h") mark_linked_ref(dec_ref(t.at(6))); else mark_linked_str(dec_sarg(t.at(6))); }
     } catch (const std::domain_error &e) {
@@ -854,13 +1309,19 @@ static std::string answer(const std::vector<std::string> &t) {
         head = "ERR " + classify();
     }
     std::string before = last_dump;
-    if (maybe_deleted) refresh_liveness(false); else last_dump = dump();
+    if (maybe_deleted) {
+        std::vector<bool> was_alive;
+        for (auto &h : hs) was_alive.push_back(h.bound && h.alive);
+        refresh_liveness(false);
+        if (mode_ == "C04") head += delete_report(before, last_dump, was_alive);
+    } else last_dump = dump();
     return head + tail_of(before, last_dump);
 }
 
 // run_file of common.hpp prefixes "OK "; our answers carry their own OK / ERR
-static int run(const char *casefile, const char *wd) {
+static int run(const char *casefile, const char *wd, const char *mode = "C03") {
     workdir = wd;
+    mode_ = mode;
     H5Eset_auto2(H5E_DEFAULT, nullptr, nullptr);
     std::ifstream in(casefile);
     if (!in) { std::cerr << "cannot open " << casefile << std::endl; return 2; }
